@@ -184,7 +184,8 @@ func c09Exhaustive(tier string) []corr.Case {
 	var cases []corr.Case
 	for _, root := range c09Roots {
 		full := filepath.Join(root[1:]...)
-		for _, sp := range []string{"/d/f", "d/f", "/d//f", "/./d/f", "/d/x/../f", "//d/f"} {
+		// (the last three: in-root names whose first element merely BEGINS with dots)
+		for _, sp := range []string{"/d/f", "d/f", "/d//f", "/./d/f", "/d/x/../f", "//d/f", "/..data/f", "/.../f", "/.hidden/..f"} {
 			dir := filepath.Dir(filepath.Clean("/" + sp))
 			l := []string{c09Header(root), "src.mkdirall " + h(full) + " 493",
 				"mkdirall " + h(dir+"/x") + " 493", "create " + h(sp), "h.write 0 68656c6c6f", "h.name 0", "h.close 0",
